@@ -67,7 +67,7 @@ func checkC20(c *core.Check) {
 	var groups []driver.Group
 	bases := baseForms()
 	round := 0
-	opSec := map[string]string{}  // "<pkg> <METHOD> <template>" -> required scheme
+	opSec := map[string]string{} // "<pkg> <METHOD> <template>" -> required scheme
 	roundPkg := map[int]string{} // round -> package
 	rawSpec := map[int]string{}  // round -> path of the spec-file route
 	specLen := map[int]int{}     // round -> length of the spec file
